@@ -5,8 +5,11 @@
 import json, re, shutil, sys
 from pathlib import Path
 pid, k, log = sys.argv[1], sys.argv[2], Path(sys.argv[3]).read_text()
-src = Path(f"/tmp/seed/{pid}/out/{k}")
-dst = Path(f"/verif/seeded/{pid}-seed{k}")
+base = sys.argv[4] if len(sys.argv) > 4 else "/tmp/seed"
+tag = "seed" if base.rstrip("/") == "/tmp/seed" else "r2seed"
+extra = json.loads(sys.argv[5]) if len(sys.argv) > 5 else {}
+src = Path(f"{base}/{pid}/out/{k}")
+dst = Path(f"/verif/seeded/{pid}-{tag}{k}")
 dst.mkdir(parents=True, exist_ok=True)
 for f in src.iterdir():
     if f.is_file() and f.stat().st_size < 200_000 and f.name not in ("meta.json", "confirm.json"):
@@ -26,10 +29,11 @@ meta = {
     "files_touched": author.get("files_touched"),
     "author_verification": author.get("how_verified"),
     "confirmed_by_integrator": confirm,
-    "what_was_run": f"tools/confirm_seed.sh /tmp/seed/{pid}/out/{k}  (scratch worktree: build, demo on unmodified and changed tree, baseline tests); "
-                    f"tools/mutant.py run seeded/{pid}-seed{k}/patch.diff {pid}  (./check {pid} quick in a copy of /verif against a worktree with the patch applied)",
+    "what_was_run": f"tools/confirm_seed.sh {base}/{pid}/out/{k}  (scratch worktree: build, demo on unmodified and changed tree, baseline tests); "
+                    f"tools/mutant.py run seeded/{pid}-{tag}{k}/patch.diff {pid}  (./check {pid} quick in a copy of /verif against a worktree with the patch applied)",
     "caught_by": json.loads(caught.group(1).replace("'", '"')) if caught else None,
     "replay_excerpt": rep.group(1)[:900] if rep else None,
 }
+meta.update(extra)
 (dst / "meta.json").write_text(json.dumps(meta, indent=1) + "\n")
 print(dst, "caught_by", meta["caught_by"], "confirmed", bool(confirm))
